@@ -136,6 +136,16 @@ def cexWithOrder : List Stmt := [.with_ [{ id := 1 }, { id := 2 }] [.tick 1]]
 theorem C02_regress_with_two_managers_order :
     (PS.bodyStmts Cfg.preFix eqSub 20 cexWithOrder {}).2.log ≠ (Py.callBody eqSub 20 cexWithOrder {}).2.log := by decide
 
+/-- a failing store to the `as` target happens inside the guarded region: the manager is exited with that exception and
+may suppress it (`with A as (a, b): …` where `A.__enter__()` is not iterable) – the models agree on it by `C02_current`;
+this is what it looks like -/
+def withBindFails : List Stmt :=
+  [.with_ [{ id := 1 }, { id := 2, suppress := true, bindRaises := some 102 }] [.tick 1], .tick 2]
+theorem C02_with_bind_failure_is_guarded :
+    (PS.bodyStmts Current.cfg eqSub 20 withBindFails {}).2.log
+      = [.init 1, .enter 1, .init 2, .enter 2, .exit 2 (some 102), .exit 1 none, .tick 2] ∧
+    (PS.bodyStmts Current.cfg eqSub 20 withBindFails {}).2.log = (Py.callBody eqSub 20 withBindFails {}).2.log := by decide
+
 /-- non-vacuity: a program using every construct lies in today's fragment and is accepted -/
 def sample : List Stmt :=
   [.for_ 1 [.try_ [.ite 2 [.raise 5 (some 6)] [.cont], .tick 3] [.mk (some [5]) [.tick 4, .reraise], .mk none [.brk]]
